@@ -10,22 +10,30 @@ RULE = ("PWLCalibrationConstraints over monotonicity {-1,0,1} x convexity {-1,0,
         "clamp_min/clamp_max (monotone only) x units 1-4 x 2-7 keypoints (one case in ten: 8-10) with segment "
         "lengths in {1/2,1,2,3} (one case in ten mixes in segments of length 1/8) x "
         "num_projection_iterations {0,1,2,3,8,12}; kernel classes: random, far (bias far outside the bounds), "
-        "wrong-sign heights, ties/zeros, near-feasible, feasible, and - for monotone + convex/concave + bounded "
+        "wrong-sign heights, ties/zeros, near-feasible, feasible (linear), feasible_shape (NOT linear: random convex / "
+        "concave / monotone / free keypoint-output profiles - sorted random slopes with ties and flat pieces, scaled "
+        "to fit - inside the bounds, touching a bound or hitting the clamped ends exactly, verified in exact "
+        "fractions; must come back unchanged), and - for monotone + convex/concave + bounded "
         "configurations with num_projection_iterations = 0 - squeeze9/10/11: the bias sits 2^-9, 2^-10, 2^-11 "
         "inside the bound the heights run towards (output_max for increasing, output_min for decreasing), so "
         "that _squeeze_by_scaling's guard delta > 0.001 is entered with delta 0.00195 and not entered with "
         "0.00098 / 0.00049 (the cases not entered violate the bounds and are known finding D2); a fifth of the "
         "cases go through a built PWLCalibration "
-        "layer (string spellings, convert_all_constraints). NaiveBoundsConstraints on random vectors. "
+        "layer (string spellings, convert_all_constraints), half of those - ~10% of all cases, class suffix _f32 - "
+        "through a float32 layer (the layers' default dtype) on the float32 kernel. NaiveBoundsConstraints on random "
+        "vectors (one in ten in float32). "
         "Non-trivial = the projection changed the kernel; distinct = distinct (config, kernel).")
 TRUSTED = ["model: Model/PWLProject.v (hand-written from pwl_calibration_lib.project_all_constraints, "
            "_project_bounds_considering_monotonicity, _approximately_project_bounds_only, _project_monotonicity, "
            "_project_convexity, _approximately_project_convexity, _squeeze_by_scaling, _finalize_constraints, "
            "NaiveBoundsConstraints)",
-           "tie: PWLCalibrationConstraints / layer.kernel.constraint called on float64 kernels; compared in Coq"]
+           "tie: PWLCalibrationConstraints / layer.kernel.constraint called on float64 kernels (tolerance 1e-9) and "
+           "layer.kernel.constraint of a float32 layer on float32 kernels (tolerance 1e-5, passed to Coq with the "
+           "case: CTol); compared in Coq"]
 LIMITS = ["tolerated by the property: convexity with bounds but without monotonicity may keep a residual convexity "
           "violation; a clamp combined with convexity is met only up to the residual of the iteration",
-          "float rounding outside the model (tolerance 1e-9)",
+          "float rounding outside the model (float64: tolerance 1e-9; float32 cases: 1e-5 * max(1, |v|) in the Coq "
+          "comparison and in the predicates; float32 cases avoid the 'far' and squeeze kernel classes)",
           "the guard constant 0.001 of _squeeze_by_scaling is bracketed by deltas 2^-10 and 2^-9 only: a change of "
           "the constant within (0.00098, 0.00195) is not seen by the generated cases"]
 SHARD = 120
@@ -61,8 +69,12 @@ def gen_descs(ctx):
       omax = omin
     units = rng.choice([1, 1, 2, 3, 1, 1, 2, 3, 4])
     iters = rng.choice([0, 1, 2, 3, 8, 12])
-    klass = rng.choice(["random", "random", "far", "wrongsign", "ties", "near", "feasible"])
-    if mono != 0 and conv != 0 and rng.random() < 0.35:
+    klass = rng.choice(["random", "random", "far", "wrongsign", "ties", "near", "feasible", "feasible_shape"])
+    via_layer = rng.random() < 0.2
+    f32 = via_layer and rng.random() < 0.5
+    if f32 and klass == "far":
+      klass = "random"
+    if mono != 0 and conv != 0 and rng.random() < 0.35 and not f32:
       # _squeeze_by_scaling alone (no Dykstra iteration): the bias sits 2^-9 / 2^-10 / 2^-11 inside the bound
       # that the heights run towards, i.e. delta = 0.00195 (> 0.001: heights are scaled into the gap),
       # 0.00098 and 0.00049 (<= 0.001: everything is kept); separates the constant 0.001 from 0 and from 0.01
@@ -75,9 +87,13 @@ def gen_descs(ctx):
     clamp_min = bool(mono != 0 and omin is not None and rng.random() < 0.4)
     clamp_max = bool(mono != 0 and omax is not None and rng.random() < 0.4)
     W = []
+    if klass == "feasible_shape":
+      W = feasible_shape(rng, mono, conv, lengths, omin, omax, clamp_min, clamp_max, units)
+      if W is None:
+        klass = "feasible"
     if klass == "feasible":
       W = feasible_kernel(rng, mono, lengths, omin, omax, clamp_min, clamp_max, units)
-    for r in range(nk if klass != "feasible" else 0):
+    for r in range(nk if not klass.startswith("feasible") else 0):
       row = []
       for u in range(units):
         if klass in SQUEEZE_GAPS:
@@ -97,15 +113,142 @@ def gen_descs(ctx):
           v = tfimpl.dy(rng)
         row.append(v)
       W.append(row)
-    via_layer = rng.random() < 0.2
-    out.append(dict(kind="proj", mono=mono, conv=conv, lengths=lengths, omin=omin, omax=omax,
-                    clamp_min=clamp_min, clamp_max=clamp_max, units=units, iters=iters, W=W, wclass=klass,
-                    via_layer=via_layer))
+    d = dict(kind="proj", mono=mono, conv=conv, lengths=lengths, omin=omin, omax=omax,
+             clamp_min=clamp_min, clamp_max=clamp_max, units=units, iters=iters, W=W, wclass=klass,
+             via_layer=via_layer)
+    if f32:
+      d["dtype"] = "float32"
+      if klass == "random":
+        # a few 2^-12 on top of the 1/8 grid: exact in float32, not in float16 / bfloat16
+        d["W"] = [[v + rng.choice([0, 0, 1, -1, 3, -5]) * 2.0 ** -12 for v in row] for row in W]
+    out.append(d)
   for _ in range(ctx.n(20, 200)):
     lo = rng.choice([None, tfimpl.dy(rng, -2, 2)])
     hi = rng.choice([None, (lo if lo is not None else 0.0) + rng.choice([0.0, 1.0, 3.0])])
-    out.append(dict(kind="naive", lo=lo, hi=hi, w=[tfimpl.dy(rng, -8, 8) for _ in range(rng.randint(1, 4))]))
+    d = dict(kind="naive", lo=lo, hi=hi, w=[tfimpl.dy(rng, -8, 8) for _ in range(rng.randint(1, 4))])
+    if rng.random() < 0.1:
+      d["dtype"] = "float32"
+    out.append(d)
   return out
+
+
+def _exact_column_ok(col, mono, conv, lengths, omin, omax, clamp_min, clamp_max):
+  """Every configured constraint holds EXACTLY for one kernel column (bias, heights); exact fractions."""
+  from fractions import Fraction  # pylint: disable=g-import-not-at-top
+  f = [Fraction(float(v)) for v in col]
+  ys, acc = [], Fraction(0)
+  for v in f:
+    acc += v
+    ys.append(acc)
+  h = f[1:]
+  if mono != 0 and any(v * mono < 0 for v in h):
+    return False
+  if omin is not None and min(ys) < Fraction(omin):
+    return False
+  if omax is not None and max(ys) > Fraction(omax):
+    return False
+  if conv != 0:
+    sl = [v / Fraction(ln) for v, ln in zip(h, lengths)]
+    if any((b - a) * conv < 0 for a, b in zip(sl, sl[1:])):
+      return False
+  lo_end, hi_end = (ys[0], ys[-1]) if mono == 1 else (ys[-1], ys[0])
+  if clamp_min and lo_end != Fraction(omin):
+    return False
+  if clamp_max and hi_end != Fraction(omax):
+    return False
+  return True
+
+
+def _shape_column(rng, mono, conv, lengths, lo, hi, clamp_min, clamp_max):
+  """Keypoint outputs ys (floats on a dyadic grid) of one candidate profile."""
+  m = len(lengths)
+  width = hi - lo
+  if mono == 0 and conv == 0:
+    return [lo + rng.randint(0, 16) / 16.0 * width for _ in range(m + 1)]
+  if conv == 0:
+    raw = [float(rng.choice([0, 0, 1, 1, 2, 3, 5])) for _ in range(m)]     # heights: ties and flat pieces
+  else:
+    pool = [0, 0, 1, 1, 2, 3, 5, 8] if mono != 0 else [-5, -3, -2, -1, -1, 0, 0, 1, 1, 2, 3, 5]
+    sl = sorted(rng.choice(pool) for _ in range(m))
+    # mono == 0: signed slopes, ascending = convex. mono != 0: slope MAGNITUDES (the direction is applied below);
+    # increasing convex / decreasing concave need ascending magnitudes, the other two descending ones
+    if (mono == 0 and conv == -1) or (mono != 0 and mono * conv == -1):
+      sl = sl[::-1]
+    raw = [v * ln for v, ln in zip(sl, lengths)]
+  if mono == 0:
+    # convex / concave without monotonicity: power-of-two scaling (exact), one extreme on a bound or centred
+    p = [0.0]
+    for v in raw:
+      p.append(p[-1] + v)
+    span = max(p) - min(p)
+    if span == 0.0:
+      return [lo + rng.randint(0, 4) / 4.0 * width] * (m + 1)
+    room = width * rng.choice([1.0, 1.0, 0.5])
+    k = 0
+    while span * 2.0 ** -k > room:
+      k += 1
+    p = [(v - min(p)) * 2.0 ** -k for v in p]
+    free = width - max(p)
+    return [lo + rng.choice([0.0, free, free / 2.0]) + v for v in p]
+  total = sum(raw)
+  if total == 0.0:
+    raw[rng.randrange(m)] = 1.0
+    if conv != 0:
+      return None
+    total = 1.0
+  pin_lo, pin_hi = clamp_min, clamp_max
+  if not pin_lo and not pin_hi and rng.random() < 0.5:
+    pin_lo, pin_hi = rng.random() < 0.5, rng.random() < 0.5    # ends ON the bounds without a clamp
+  if pin_lo and pin_hi:
+    # both ends fixed: heights proportional to raw, rounded to multiples of 2^-10, the steepest piece takes the rest
+    hs = [np.round(v / total * width * 1024.0) / 1024.0 for v in raw]
+    j = max(range(m), key=lambda i: raw[i] / lengths[i])
+    hs[j] = width - (sum(hs) - hs[j])
+    a = lo
+  else:
+    room = width * rng.choice([1.0, 0.75, 0.5, 0.25]) if width > 0 else 0.0
+    if room <= 0.0:
+      return None
+    k = 0
+    while total * 2.0 ** -k > room:
+      k += 1
+    hs = [v * 2.0 ** -k for v in raw]
+    rise = sum(hs)
+    if pin_lo:
+      a = lo
+    elif pin_hi:
+      a = hi - rise
+    else:
+      a = lo + np.floor((width - rise) * rng.choice([0.0, 0.5, 1.0]) * 64.0) / 64.0
+  ys = [a if mono == 1 else a + sum(hs)]
+  for v in hs:
+    ys.append(ys[-1] + mono * v)
+  return ys
+
+
+def feasible_shape(rng, mono, conv, lengths, omin, omax, clamp_min, clamp_max, units):
+  """A kernel meeting EVERY constraint of the configuration that is NOT linear in the input: per unit a random
+  profile of keypoint outputs - monotone with flat pieces and ties (convexity 0), convex / concave from sorted random
+  slopes (scaled to fit by a power of two, or to the full width with the steepest piece absorbing the rounding),
+  free inside the bounds (no monotonicity, no convexity) - that hits the clamped ends exactly and often touches an
+  unclamped bound. Every column is verified in exact fractions; None when no candidate passes."""
+  lo = omin if omin is not None else (omax - 4.0 if omax is not None else -2.0)
+  hi = omax if omax is not None else lo + 4.0
+  cols = []
+  for _ in range(units):
+    col = None
+    for _ in range(30):
+      ys = _shape_column(rng, mono, conv, lengths, lo, hi, clamp_min, clamp_max)
+      if ys is None:
+        continue
+      cand = [ys[0]] + [b - a for a, b in zip(ys, ys[1:])]
+      if _exact_column_ok(cand, mono, conv, lengths, omin, omax, clamp_min, clamp_max):
+        col = cand
+        break
+    if col is None:
+      return None
+    cols.append(col)
+  return [[float(cols[u][r]) for u in range(units)] for r in range(len(lengths) + 1)]
 
 
 def feasible_kernel(rng, mono, lengths, omin, omax, clamp_min, clamp_max, units):
@@ -128,13 +271,26 @@ def feasible_kernel(rng, mono, lengths, omin, omax, clamp_min, clamp_max, units)
   return W
 
 
+F32_TOL = 1e-5
+
+
+def is_f32(d):
+  """float32 runs only through the layer route (or NaiveBoundsConstraints): C08 / C09 re-use the 'proj' descs with
+  via_layer=False and compare in float64."""
+  return d.get("dtype") == "float32" and (d.get("kind") == "naive" or bool(d.get("via_layer")))
+
+
+def rel_tol(d):
+  return F32_TOL if is_f32(d) else 1e-9
+
+
 def check_outputs(d, R):
   """Property clauses on the returned kernel R (rows = bias + heights)."""
   fails = []
   units = d["units"]
   L = np.array(d["lengths"])
   scale = max(1.0, float(np.abs(np.array(d["W"])).max()))
-  tol = 1e-9 * scale
+  tol = rel_tol(d) * scale
   for u in range(units):
     col = R[:, u]
     sums = np.cumsum(col)
@@ -151,7 +307,8 @@ def check_outputs(d, R):
     if d["conv"] != 0 and (d["mono"] != 0 or not has_bounds) and h.size >= 2:
       slopes = h / L
       v = (-d["conv"] * np.diff(slopes)).max()
-      if v > 1e-7 * scale:
+      # slopes = height / length amplify the rounding of the heights by up to 8 (segments of length 1/8)
+      if v > (10.0 * F32_TOL if is_f32(d) else 1e-7) * scale:
         fails.append("convexity: unit %d slopes out of order by %r" % (u, v))
     if d["conv"] == 0:
       lo_end = sums[0] if d["mono"] == 1 else sums[-1]
@@ -177,10 +334,11 @@ def squeeze_no_room(d, bias, side=None):
   omin, omax, mono = d["omin"], d["omax"], d["mono"]
   below_min = omin is not None and bias < omin
   above_max = omax is not None and bias > omax
+  slack = ROOM_SLACK if not is_f32(d) else 1e-5 * max(1.0, abs(bias))   # float32: rounding of the room
   if mono == 1:
-    no_far_room = omax is not None and omax - bias <= SQUEEZE_EPS + ROOM_SLACK
+    no_far_room = omax is not None and omax - bias <= SQUEEZE_EPS + slack
     return {"min": below_min, "max": no_far_room}.get(side, below_min or above_max or no_far_room)
-  no_far_room = omin is not None and bias - omin <= SQUEEZE_EPS + ROOM_SLACK
+  no_far_room = omin is not None and bias - omin <= SQUEEZE_EPS + slack
   return {"min": no_far_room, "max": above_max}.get(side, below_min or above_max or no_far_room)
 
 
@@ -245,17 +403,27 @@ def eval_cases(ctx, descs):
   lib = tfl.pwl_calibration_lib
   cases = []
   for d in descs:
+    f32 = is_f32(d)
+    npdt = np.float32 if f32 else np.float64
+    tfdt = tf.float32 if f32 else tf.float64
+    rel = rel_tol(d)
+    wrap = (lambda c: "CTol %s (%s)" % (cq(F32_TOL), c)) if f32 else (lambda c: c)
     if d["kind"] == "naive":
       con = tfl.pwl_calibration_layer.NaiveBoundsConstraints(lower_bound=d["lo"], upper_bound=d["hi"])
-      o = [float(v) for v in con(tf.constant(d["w"], dtype=tf.float64)).numpy()]
+      res = con(tf.constant(d["w"], dtype=tfdt))
+      o = [float(v) for v in res.numpy()]
       fail = None
-      if d["lo"] is None or d["hi"] is None or d["lo"] <= d["hi"]:
+      if res.dtype != tfdt:
+        fail = "a %s vector comes back as %s" % (tfdt.name, res.dtype.name)
+      elif d["lo"] is None or d["hi"] is None or d["lo"] <= d["hi"]:
         if (d["lo"] is not None and min(o) < d["lo"]) or (d["hi"] is not None and max(o) > d["hi"]):
           fail = "missing-output value outside the bounds"
-      cases.append(Case(d, coq="CNaive %s %s %s %s" % (copt(d["lo"]), copt(d["hi"]), cql(d["w"]), cql(o)),
-                        pred_fail=fail, nontrivial=o != d["w"], klass="naive"))
+      cases.append(Case(d, coq=wrap("CNaive %s %s %s %s" % (copt(d["lo"]), copt(d["hi"]), cql(d["w"]), cql(o))),
+                        pred_fail=fail, nontrivial=o != d["w"], klass="naive" + ("_f32" if f32 else "")))
       continue
-    W = np.array(d["W"], dtype=np.float64)
+    # the kernel the implementation really receives (float32 cases: the nearest float32 values, taken as exact)
+    W = np.array(d["W"], dtype=np.float64).astype(npdt).astype(np.float64)
+    d_in = dict(d, W=[[float(v) for v in r] for r in W]) if f32 else d
     omin_v, omax_v, cmin, cmax = lib.convert_all_constraints(d["omin"], d["omax"], d["clamp_min"], d["clamp_max"])
     if d["via_layer"]:
       kp = [0.0] + list(np.cumsum(d["lengths"]))
@@ -264,33 +432,40 @@ def eval_cases(ctx, descs):
       layer = tfl.layers.PWLCalibration(
           input_keypoints=kp, units=d["units"], output_min=d["omin"], output_max=d["omax"],
           clamp_min=d["clamp_min"], clamp_max=d["clamp_max"], monotonicity=spell[d["mono"]],
-          convexity=cspell[d["conv"]], num_projection_iterations=d["iters"], dtype="float64")
+          convexity=cspell[d["conv"]], num_projection_iterations=d["iters"], dtype="float32" if f32 else "float64")
       layer.build((None, d["units"]))
       con = layer.kernel.constraint
+      if layer.kernel.dtype.base_dtype != tfdt:
+        raise ValueError("layer built with dtype=%s has a kernel of dtype %s" % (tfdt.name, layer.kernel.dtype.name))
     else:
       con = tfl.pwl_calibration_layer.PWLCalibrationConstraints(
-          monotonicity=d["mono"], convexity=d["conv"], lengths=tf.constant(d["lengths"], dtype=tf.float64),
+          monotonicity=d["mono"], convexity=d["conv"], lengths=tf.constant(d["lengths"], dtype=tfdt),
           output_min=d["omin"], output_max=d["omax"], output_min_constraints=cmin, output_max_constraints=cmax,
           num_projection_iterations=d["iters"])
-    R = con(tf.constant(W)).numpy()
+    Rt = con(tf.constant(W.astype(npdt)))
+    R = Rt.numpy().astype(np.float64)
     fails = []
+    if Rt.dtype != tfdt:
+      fails.append("dtype: a %s kernel comes back as %s" % (tfdt.name, Rt.dtype.name))
     if not np.all(np.isfinite(R)):
       fails.append("non-finite kernel returned")
     else:
-      fails = check_outputs(d, R)
+      fails += check_outputs(d_in, R)
       has_bounds = d["omin"] is not None or d["omax"] is not None
       tolerated = d["conv"] != 0 and (d["mono"] == 0 and has_bounds or d["clamp_min"] or d["clamp_max"])
       if not fails and not tolerated:
-        R2 = con(tf.constant(R)).numpy()
+        R2 = con(tf.constant(R.astype(npdt))).numpy().astype(np.float64)
         ch = np.abs(R2 - R).max()
-        if ch > 1e-9 * max(1.0, np.abs(R).max()):
+        if ch > rel * max(1.0, np.abs(R).max()):
           fails.append("idempotence: a kernel meeting all constraints is moved by %r when projected again" % ch)
-    if d.get("wclass") == "feasible" and np.all(np.isfinite(R)) and not check_outputs(d, W):
+    if d.get("wclass") == "feasible_shape" and not f32 and check_outputs(d_in, W):
+      fails.append("harness: a feasible_shape kernel does not pass the property's own clauses: %s" % check_outputs(d_in, W)[0])
+    if str(d.get("wclass", "")).startswith("feasible") and np.all(np.isfinite(R)) and not check_outputs(d_in, W):
       ch = np.abs(R - W).max()
-      if ch > 1e-9 * max(1.0, np.abs(W).max()):
+      if ch > rel * max(1.0, np.abs(W).max()):
         fails.append("feasible: a kernel satisfying every configured constraint is changed by %r" % ch)
     cfg = coq_cfg(d, omin_v, omax_v, cmin, cmax)
-    coq = "CProj %s %s %s %s" % (cfg, cnat(d["units"]), cqm(d["W"]), cqm([[float(v) for v in r] for r in R]))
+    coq = wrap("CProj %s %s %s %s" % (cfg, cnat(d["units"]), cqm(d_in["W"]), cqm([[float(v) for v in r] for r in R])))
     moved = np.abs(R - W).max() > 1e-12
     klass = "m%d_c%d_%s%s_%s%s" % (d["mono"], d["conv"], "b" if d["omin"] is not None else "", "B" if d["omax"] is not None else "",
                                     "cl_" if d["clamp_min"] or d["clamp_max"] else "", d["wclass"])
@@ -299,6 +474,9 @@ def eval_cases(ctx, descs):
              ("u" if d["units"] >= 4 else "") + ("s" if 0.125 in d["lengths"] else ""))
     if extra:
       klass += "_x" + extra
-    cases.append(Case(d, coq=coq, pred_fail="; ".join(fails) if fails else None, nontrivial=bool(moved), klass=klass,
+    if f32:
+      klass += "_f32"
+    cases.append(Case(d, coq=coq, pred_fail="; ".join(fails) if fails else None,
+                      nontrivial=bool(moved) or d.get("wclass") == "feasible_shape", klass=klass,
                       info={"impl_output": [[float(v) for v in r] for r in R]}))
   return cases
